@@ -64,10 +64,19 @@ def num_of(t):
 
 class Dyn(Calls):
     # ------------------------------------------------------------------ boxing
+    def type_of(self, v):
+        if isinstance(v, (VFunc, VLambda, VClass, VBuiltin)):
+            return TObj()
+        return super().type_of(v)
+
     def box(self, v):
+        if isinstance(v, VFunc):
+            v = VBuiltin("fn:" + v.fid)
+        if isinstance(v, VLambda):
+            return self.fresh_obj("lambda")
         if isinstance(v, (VClass, VBuiltin)):
             # a class / builtin used as a value (np.int8, dict, ...): one constant per name; distinct names are distinct objects
-            t = z3.Const("pyobj_" + v.name.replace(".", "_"), ObjSort)
+            t = z3.Const("pyobj_" + v.name.replace(".", "_").replace(":", "_"), ObjSort)
             names = self.st.ghost.setdefault("$pyobjs", {})
             if v.name not in names:
                 for other in names.values():
@@ -782,8 +791,20 @@ class Dyn(Calls):
     def bi_hasattr(self, args, kwargs, node):
         o, nm = args
         if isinstance(o, VObj):
+            if not self.bound_ids:
+                self.touch(TObj(), o.t)
             return VBool(z3.Function("has_attr", ObjSort, ObjSort, z3.BoolSort())(o.t, self.box(nm)))
         raise Unsupported("hasattr on %r" % (o,))
+
+    def pure_map(self, n, var, c):
+        box = super().pure_map(n, var, c)
+        src_term = getattr(c, "term", None)
+        if src_term is not None and getattr(self.reg, "list_terms", False):
+            # the mapped list as a value: maplist(<the element expression>, <source sequence value>)
+            fkey = z3.Const("mapfn_" + str(abs(hash(ast.dump(n.elt))) % 10**8), ObjSort)
+            self.cont(box).term = z3.Function("maplist", ObjSort, ObjSort, ObjSort)(fkey, src_term)
+            self.touch(TObj(), fkey)
+        return box
 
     def pure_filter(self, n, g, var, c):
         """Adds two consequences of the filter step rule (each by induction on the index, trusted): the filtered list is
@@ -1038,13 +1059,26 @@ class Dyn(Calls):
             return super().bi_len([args[0].val], kwargs, node)
         return super().bi_len(args, kwargs, node)
 
+    def bi_callable(self, args, kwargs, node):
+        v = args[0]
+        if isinstance(v, VObj):
+            return VBool(z3.Function("callable_obj", ObjSort, z3.BoolSort())(v.t))
+        return VBool(isinstance(v, (VFunc, VLambda, VClass, VBuiltin)))
+
     def bi_repr(self, args, kwargs, node):
+        if "repr" in self.reg.constructors:
+            return self.reg.constructors["repr"](self, args, kwargs)
         return VStr(self.fresh("repr", z3.StringSort()))
 
     def m_str_encode(self, recv, args, kwargs):
         return VObj(z3.Function("utf8", z3.StringSort(), ObjSort)(recv.t), "bytes")
 
     def m_str_join(self, recv, args, kwargs):
+        lst = self.cont(args[0]) if args and isinstance(args[0], VCont) else None
+        term = getattr(lst, "term", None)
+        if term is not None:
+            # the joined text is a function of the separator and of the list *as a value* (term-carrying lists: see pure_map / bi_sorted)
+            return VStr(z3.Function("joinl", z3.StringSort(), ObjSort, z3.StringSort())(recv.t, term))
         return VStr(self.fresh("joined", z3.StringSort()))
 
     def m_str_split(self, recv, args, kwargs):
@@ -1112,7 +1146,10 @@ class Dyn(Calls):
             return z3.Implies(has(t, x), z3.And(0 <= idx(t, x), idx(t, x) < n, item(t, idx(t, x)) == x))
         self.add_universal([TInt], yields, "iteration-yields-members")
         self.add_universal([TObj()], yielded, "members-are-yielded")
-        box = self.new_box(ListV(TList(TObj()), arr, n))
+        lv = ListV(TList(TObj()), arr, n)
+        if getattr(self.reg, "iter_term", None) is not None:
+            lv.term = self.reg.iter_term(self, v.t)      # the iteration as a value (e.g. seeded for hash-ordered collections)
+        box = self.new_box(lv)
         views = dict(views)
         views[key] = box
         self.st.ghost["$seqviews"] = views
@@ -1174,9 +1211,10 @@ class Dyn(Calls):
             try:
                 self.assume_clause(cl, spec_env=env2, old=pre, env={})
             except Unsupported as e:
-                if "nested universal" not in str(e):
+                if "nested universal" not in str(e) and "unresolved name" not in str(e):
                     raise
-                # a quantified postcondition cannot be instantiated per element here; it is simply not used (assuming less is sound)
+                # a quantified postcondition (or one that names the callee's locals) cannot be instantiated per element here; it is
+                # simply not used (assuming less is sound)
         if self._pure_raises is not None:
             self._pure_raises.update(list(c.raises) + list(c.when_raises))
         return res
@@ -1356,8 +1394,28 @@ class Dyn(Calls):
         elif isinstance(c, ListV) and c.idx is not None:
             arr0, n0, idx0 = c.arr, c.n, c.idx
             ety, member, cnt = c.ty.e, (lambda k: z3.And(0 <= idx0[k], idx0[k] < n0, arr0[idx0[k]] == k)), c.n
+        elif isinstance(c, ListV):
+            # a list that may hold duplicates: a list of the same length (a permutation of the source; only the length is modelled);
+            # as a value it is sortedl(<source list value>) when the source carries its value term
+            arr = self.fresh("sortedany", c.arr.sort())
+            out = ListV(c.ty, arr, c.n)
+            if getattr(c, "term", None) is not None:
+                out.term = z3.Function("sortedl", ObjSort, ObjSort)(c.term)
+            return self.new_box(out)
         else:
-            raise Unsupported("sorted of a collection that may hold duplicates")
+            raise Unsupported("sorted of %r" % (c,))
+        if isinstance(c, SetV) and isinstance(ety, TObj):
+            # sorted(set of objects) (objects ordered by their own __lt__): a duplicate-free list of exactly the members whose order is a
+            # function of the SET (canonical_order of the membership), provided the ordering is total on the members (stated by the caller)
+            A = z3.ArraySort(ObjSort, z3.BoolSort())
+            arr = z3.Function("canonical_order", A, z3.ArraySort(z3.IntSort(), ObjSort))(c.mem)
+            n = z3.Function("cardinality", A, z3.IntSort())(c.mem)
+            idx = z3.Function("canonical_position", A, z3.ArraySort(ObjSort, z3.IntSort()))(c.mem)
+            self.assume(n >= 0)
+            lst = ListV(TList(ety), arr, n, idx)
+            mem_ = c.mem
+            self.injlist_facts(lst, lambda k: mem_[k])
+            return self.new_box(lst)
         if ety is not TStr:
             raise Unsupported("sorted of non-string elements")
         arr = self.fresh("sorted", z3.ArraySort(z3.IntSort(), ety.sort()))
@@ -1404,3 +1462,12 @@ class Dyn(Calls):
         if isinstance(o, EmptyV):
             return VNone
         return super().m_SetV_update(recv, args, kwargs)
+
+    def sp_seed_independent(self, n):
+        """seed_independent(e): the value of e does not change when the process hash seed does.  Sound only for values that are terms
+        over the inputs and the seed (term-carrying lists, uninterpreted renderings); checked by substituting a second seed."""
+        v = self.ev(n.args[0])
+        if not isinstance(v, (VStr, VObj)):
+            raise Unsupported("seed_independent of %r" % (v,))
+        s1, s2 = z3.Const("the_hash_seed", ObjSort), z3.Const("the_other_hash_seed", ObjSort)
+        return VBool(v.t == z3.substitute(v.t, (s1, s2)))
